@@ -183,6 +183,70 @@ fn variable_tokens(sx: &Sx, acc: &mut Vec<usize>) {
     }
 }
 
+/// tokens in field-name position: `{ name = … }`, `.name`, `:name(…)`, and the trailing names of `function a.b.c:m`
+fn field_tokens(sx: &Sx, acc: &mut Vec<usize>) {
+    fn tok_idx(t: &Sx) -> Option<usize> {
+        if let Sx::List(v) = t {
+            if let Some(Sx::Atom(a)) = v.first() {
+                return a.parse().ok();
+            }
+        }
+        None
+    }
+    if let Sx::List(v) = sx {
+        if let Some(Sx::Atom(tag)) = v.first() {
+            match tag.as_str() {
+                "dot" | "meth" => {
+                    if let Some(i) = v.get(3).and_then(tok_idx) {
+                        acc.push(i);
+                    }
+                }
+                "fname" => match v.get(3) {
+                    // function name: (fname a b (names…) method)
+                    Some(Sx::List(names)) if !matches!(names.first(), Some(Sx::Atom(_))) => {
+                        for n in names.iter().skip(1) {
+                            if let Some(i) = tok_idx(n) {
+                                acc.push(i);
+                            }
+                        }
+                        if let Some(i) = v.get(4).and_then(tok_idx) {
+                            acc.push(i);
+                        }
+                    }
+                    // table field: (fname a b (idx "key") value)
+                    Some(k) => {
+                        if let Some(i) = tok_idx(k) {
+                            acc.push(i);
+                        }
+                    }
+                    None => {}
+                },
+                _ => {}
+            }
+        }
+        for x in v {
+            field_tokens(x, acc);
+        }
+    }
+}
+
+fn std_segments(std: &StandardLibrary) -> HashSet<String> {
+    let mut s = HashSet::new();
+    for k in std.globals.keys() {
+        for seg in k.split('.') {
+            s.insert(seg.to_owned());
+        }
+    }
+    for st in std.structs.values() {
+        for k in st.keys() {
+            for seg in k.split('.') {
+                s.insert(seg.to_owned());
+            }
+        }
+    }
+    s
+}
+
 const SPECIAL: &[&str] = &["self", "_G", "shared", "type", "typeof", "Roact", "React", "game", "script", "workspace", "_", "_ENV", "arg"];
 
 /// an injective renaming of script-introduced names; returns (twin source, new→old map)
@@ -217,7 +281,35 @@ pub fn rename_twin(src: &str, ast: &full_moon::ast::Ast, d: &Dumper, chunk: &Sx,
         .map(|(n, _)| n.clone())
         .collect();
     candidates.sort();
-    if candidates.is_empty() {
+    // field names the script introduces: spellings that occur in field position only (never as a variable, never
+    // inside a string literal) and nowhere in the library; every field-position occurrence is renamed
+    let mut field_toks = Vec::new();
+    field_tokens(chunk, &mut field_toks);
+    let field_set: HashSet<usize> = field_toks.iter().copied().collect();
+    // the old spelling must be unknown to every library selene knows of: `possible_std` notes ("was found in the
+    // roblox standard library") look a field name up in all of them
+    let mut segs = std_segments(std);
+    for name in ["lua51", "lua52", "lua53", "lua54", "luau"] {
+        if let Some(l) = StandardLibrary::from_name(name) {
+            segs.extend(std_segments(&l));
+        }
+    }
+    segs.extend(std_segments(&StandardLibrary::roblox_base()));
+    let var_names: HashSet<String> = var_toks.iter().map(|i| d.tokens[*i].4.clone()).collect();
+    let mut field_names: Vec<String> = field_toks.iter().map(|i| d.tokens[*i].4.clone()).collect();
+    field_names.sort();
+    field_names.dedup();
+    let field_candidates: Vec<String> = field_names
+        .into_iter()
+        .filter(|n| {
+            !var_names.contains(n)
+                && !segs.contains(n)
+                && !SPECIAL.contains(&n.as_str())
+                && !n.starts_with("__")
+                && !d.tokens.iter().enumerate().any(|(i, t)| !field_set.contains(&i) && t.4.contains(n.as_str()))
+        })
+        .collect();
+    if candidates.is_empty() && field_candidates.is_empty() {
         return None;
     }
     let mut map: HashMap<String, String> = HashMap::new();
@@ -245,14 +337,33 @@ pub fn rename_twin(src: &str, ast: &full_moon::ast::Ast, d: &Dumper, chunk: &Sx,
         back.insert(fresh.clone(), n.clone());
         map.insert(n, fresh);
     }
-    if map.is_empty() {
+    let mut fmap: HashMap<String, String> = HashMap::new();
+    for n in field_candidates {
+        if !r.chance(1, 2) {
+            continue;
+        }
+        k += 1;
+        let fresh = format!("zq{}f", k);
+        if all_text.contains(&fresh) || src.contains(&fresh) || segs.contains(&fresh) {
+            continue;
+        }
+        stats.bump("renamed_field_name");
+        back.insert(fresh.clone(), n.clone());
+        fmap.insert(n, fresh);
+    }
+    if map.is_empty() && fmap.is_empty() {
         return None;
     }
-    stats.add("renamed_names", map.len() as u64);
+    stats.add("renamed_names", (map.len() + fmap.len()) as u64);
     let mut id = |_: usize, g: &str| g.to_owned();
     let mut textf = |i: usize, t: &str| -> String {
         if var_set.contains(&i) {
             if let Some(f) = map.get(t) {
+                return f.clone();
+            }
+        }
+        if field_set.contains(&i) {
+            if let Some(f) = fmap.get(t) {
                 return f.clone();
             }
         }
@@ -318,7 +429,7 @@ pub fn run(args: &Args, out: &mut Out, kind: &str) {
                 continue;
             }
         };
-        let reps = if kind == "c13" || kind == "c13r" { 2 } else { 1 };
+        let reps = if kind == "c13" || kind == "c13r" { 2 } else if origin.starts_with("corpus") { 6 } else { 2 };
         for _ in 0..reps {
             let (twin_src, back) = if kind == "c13" || kind == "c13r" {
                 (trivia_twin(&src, &d, &mut rng, out), HashMap::new())
